@@ -156,10 +156,77 @@ func c19CopyBoundaries(c *Ctx) {
 	}
 }
 
+// c19CopyThenRestart: instances with non-default settings (background value, block size) are copied and the
+// datastore is closed and reopened right after the copy, with no other metadata change in between; the copy must
+// still read like the source at every version
+func c19CopyThenRestart(c *Ctx) {
+	for _, cfgv := range []map[string]string{{"Background": "9", "BlockSize": "32,32,32"}, {"Background": "0", "BlockSize": "16,16,16"}} {
+		if nf := len(c.Findings); nf > 0 && strings.HasPrefix(c.Findings[nf-1].Sig, "C19 copy-differs-after-restart") {
+			return // a copy that lost its settings can take the process down on the next geometry: one report is enough
+		}
+		func() {
+			OpenServer()
+			defer CloseServer()
+			root := NewRepo()
+			if r := NewInstance(root, "uint8blk", "img", cfgv); !r.OK() {
+				c.Report("H", "C19 instance", r.String(), "")
+				return
+			}
+			bs := 32
+			if cfgv["BlockSize"] == "16,16,16" {
+				bs = 16
+			}
+			rng := c.Rng.Fork()
+			Post(fmt.Sprintf("node/%s/img/raw/0_1_2/%d_%d_%d/0_0_0", root, bs, bs, bs), rng.Bytes(bs*bs*bs))
+			Commit(root)
+			child, _ := NewVersion(root)
+			Post(fmt.Sprintf("node/%s/img/raw/0_1_2/%d_%d_%d/%d_0_0", child, bs, bs, bs, bs), rng.Bytes(bs*bs*bs))
+			datastore.BlockOnUpdating(dvid.UUID(root), "img")
+			cfg := dvid.NewConfig()
+			if err := datastore.CopyInstance(dvid.UUID(child), "img", "imgcopy", cfg); err != nil {
+				c.Report("O", "C19 copy-fails img", "CopyInstance fails: "+err.Error(), fmt.Sprint(cfgv))
+				return
+			}
+			reads := []string{fmt.Sprintf("raw/0_1_2/%d_%d_%d/0_0_0", 3*bs, 2*bs, 2*bs), fmt.Sprintf("raw/0_1_2/%d_%d_%d/%d_%d_0", bs, bs, bs, bs/2, bs/2), "info"}
+			cmp := func(when string) bool {
+				for _, u := range []string{root, child} {
+					for _, p := range reads {
+						a, b := readInst(u, "img", p), normName(readInst(u, "imgcopy", p), "imgcopy", "img")
+						if p == "info" {
+							// only the settings of the instance are compared
+							a, b = c19Settings(a), c19Settings(b)
+						}
+						c.Eval("copy-then-restart "+when+" "+p+" "+fmt.Sprint(cfgv), true)
+						if a != b {
+							c.Report("O", "C19 copy-differs-after-restart "+strings.SplitN(p, "/", 2)[0], "a read of the copy differs from the same read of the source "+when,
+								fmt.Sprintf("instance uint8blk %v: written, committed, written at a child, CopyInstance at the child, %s\nGET %s\nsource: %s\ncopy:   %s", cfgv, when, p, a, b))
+							return false
+						}
+					}
+				}
+				return true
+			}
+			if !cmp("right after the copy") {
+				return
+			}
+			datastore.CloseReopenTest()
+			c.Count("copy-then-restart")
+			cmp("after the datastore was closed and reopened")
+		}()
+	}
+}
+
+var c19SettingsRe = regexp.MustCompile(`"(Background|BlockSize|VoxelSize|VoxelUnits|Interpolable|Values)":\s*("[^"]*"|\[[^\]]*\]|[0-9a-z.]+)`)
+
+func c19Settings(info string) string {
+	return strings.Join(c19SettingsRe.FindAllString(info, -1), " ")
+}
+
 func runC19(c *Ctx) {
 	c.Rule = "a case is one (history, source instance, copy mode, version): a generated write/delete history over a branched DAG with merges in keyvalue, annotation, roi and uint8blk instances, datastore.CopyInstance full or flattened at a version, then every read endpoint of source and copy compared at every version (full) or at the flatten version, the raw keys of the copy compared with the model's rewrite of the source's raw keys, and the source's own reads and raw keys compared before and after; non-trivial when the compared version sees inherited, overwritten or deleted data (it is not the version of the last write of everything it reads)"
 	quietLogs()
 	c19CopyBoundaries(c)
+	c19CopyThenRestart(c)
 	worlds := 2
 	steps := 60
 	if c.Thorough {
